@@ -22,11 +22,13 @@ import os
 
 from ..model import AnalysisError, norm
 from .. import report as _report
-from ..unordered import (Pkg, Classifier, SENS, INSENS, FLOWS, UNDET, show_ty, norm_src, LOGGER_NAMES, BOT, joins,
+from ..unordered import (Pkg, Classifier, ExtModel, SENS, INSENS, FLOWS, UNDET, show_ty, norm_src, LOGGER_NAMES, BOT, joins,
                          ACI_FOLDS, INJECTIVE_ATTRS)
 
 OWN_MUTATION_ADEQUACY = True  # thorough tier: whole-package mutants are analysed by thorough() below
 PKG_DIR = "androguard/decompiler/"
+EXT_MODULES = ("androguard/core/dex/__init__.py", "androguard/core/analysis/analysis.py")
+_EXT = None
 NONDET_MODULES = {"time", "datetime", "random", "uuid", "secrets"}
 WRITER_PATH = ("/writer.py", "/dast.py", "/decompile.py", "/fixture_writer.py")
 VERIF = os.path.dirname(os.path.dirname(os.path.dirname(os.path.abspath(__file__))))
@@ -56,10 +58,10 @@ class Result:
 
 
 # ---------------------------------------------------------------------------------------------
-def analyse(trees):
+def analyse(trees, ext=None):
     """the whole rule on a dict relpath -> ast.Module; independent of ctx so that mutants can be analysed"""
     res = Result()
-    pkg = Pkg(trees).solve()
+    pkg = Pkg(trees, ext=ext).solve()
     res.pkg = pkg
     cl = Classifier(pkg)
     recs = cl.run()
@@ -261,8 +263,15 @@ def history(pkg, cl, res):
             for s2 in _deep_sites(pkg, frozenset([("site", sid)])):
                 if pkg.site_kind[s2] in ("list", "dict", "set"):
                     shared.setdefault(s2, (why if s2 == sid else "a %s stored in %s" % (pkg.site_kind[s2], why), pkg.site_scope[sid], node))
+    ext_sites = set()
+    for sid, (meth, stored) in sorted(pkg.ext_sites.items()):
+        owners = ", ".join(sorted({"%s.%s() returns its own self.%s" % (c, meth, a) for _, c, a, k in stored})[:3])
+        shared[sid] = ("the %s handed out by %s() of the DEX object model without copying (%s): it belongs to an object that outlives "
+                       "this decompilation" % (pkg.site_kind[sid], meth, owners), pkg.site_scope[sid], pkg.site_node[sid])
+        ext_sites.add(sid)
     res.counts["memoised_functions"] = n_memo
     res.counts["global_containers"] = n_glob
+    res.counts["external_containers"] = len(ext_sites)
     # ---- who mutates a shared object? ---------------------------------------------------
     muts = {}
     module_names = {}
@@ -288,7 +297,9 @@ def history(pkg, cl, res):
                             for x in pkg.sites(pkg.ev(Pkg._as_load(ft), sc)):
                                 hits.append((x, "augmented assignment"))
             for x, kind in hits:
-                if x in shared and pkg.site_scope[x] is not sc:
+                if x in shared and (pkg.site_scope[x] is not sc or x in ext_sites):
+                    if x in ext_sites and kind == "memo-insert":
+                        kind = "item assignment"
                     muts.setdefault(x, []).append((sc, n, kind))
     done = set()
     for sid in sorted(shared):
@@ -302,7 +313,9 @@ def history(pkg, cl, res):
             continue
         res.obligations.append(("process-history", inst, False, ""))
         who = "; ".join(dict.fromkeys("%s in %s" % (norm_src(n)[:50], sc.qualname) for sc, n, k in real[:3]))
-        if owner.kind == "func":
+        if sid in ext_sites:
+            key_sc, construct, onode = real[0][0], real[0][1], real[0][1]
+        elif owner.kind == "func":
             key_sc, construct = owner, "def %s(%s)" % (owner.node.name, ", ".join(owner.params))
         else:
             # a function that hands the shared object out (hand-written memo), else the first mutator
@@ -321,7 +334,7 @@ def history(pkg, cl, res):
         done.add((key_sc.qualname, norm(construct)))
         res.findings.append(("process-history", key_sc, construct,
                              "%s is mutated (%s): what a later decompilation sees depends on what was decompiled earlier in the process" % (why, who),
-                             onode if owner.kind == "func" else real[0][1], dict(shared=why, mutated_by=who)))
+                             onode if (owner.kind == "func" or sid in ext_sites) else real[0][1], dict(shared=why, mutated_by=who)))
     # ---- module-level instances / rebinding of globals from inside functions ----------------
     for sc in sorted(pkg.scopes.values(), key=lambda s: s.id):
         if sc.kind != "func" or pkg.scope_of_node.get(id(sc.node)) is not sc:
@@ -429,7 +442,9 @@ def fixture_check():
         raise AnalysisError("fixture missing: %s" % path)
     with open(path) as fh:
         tree = ast.parse(fh.read())
-    res = analyse({"fixture/unordered_fixture.py": tree})
+    with open(os.path.join(VERIF, "fixtures", "C22", "ext_model_fixture.py")) as fh:
+        ext = ExtModel({"fixture/ext_model_fixture.py": ast.parse(fh.read())})
+    res = analyse({"fixture/unordered_fixture.py": tree}, ext)
     fired = {}
     for rule, sc, c, m, n, w in res.findings:
         fired.setdefault(sc.qualname, set()).add(rule)
@@ -481,7 +496,10 @@ def run(ctx):
     ctx.require(len(trees) >= 10, "anchor vanished: androguard/decompiler has %d modules" % len(trees))
     for rp in ("node.py", "control_flow.py", "graph.py", "dataflow.py", "writer.py", "basic_blocks.py"):
         ctx.require(PKG_DIR + rp in trees, "anchor vanished: %s%s" % (PKG_DIR, rp))
-    res = analyse(trees)
+    global _EXT
+    _EXT = ExtModel({rp: ctx.mod(rp).tree for rp in EXT_MODULES if rp in ctx.repo.modules})
+    ctx.require(len(_EXT.classes) >= 50, "anchor vanished: DEX object model has %d classes" % len(_EXT.classes))
+    res = analyse(trees, _EXT)
     pkg = res.pkg
     ctx.assume("closed world by name: an attribute/method name defined by a class of androguard/decompiler, used on a "
                "receiver of unknown type inside that package, denotes one of those definitions; values coming from outside "
@@ -793,7 +811,7 @@ def _mutated(ctx, edit):
         return None, None
     for t in trees.values():
         ast.fix_missing_locations(t)
-    return tag, analyse(trees)
+    return tag, analyse(trees, _EXT)
 
 
 def thorough(ctx, res):
